@@ -301,7 +301,61 @@ func runSelfTest(r *core.Report, repo, verif string) {
 		}
 	}
 	r.Extra["selftest_alpha_renaming"] = alpha
-	fmt.Printf("selftest: %d mutants, %d applied, %d killed; %d behaviour-preserving variants, %d quiet; alpha-renaming: %s\n", nMut, applied, killed, nBenign, quiet, core.Trunc(alpha, 60))
+	// the same for purely syntactic rewrites applied to the whole repository (bin/synrewrite): compound assignments
+	// expanded, `a && b` split into nested ifs, comparison operands swapped, if/else inverted, conditions held in locals
+	syn := map[string]string{}
+	if sr := filepath.Join(filepath.Dir(self), "synrewrite"); fileExists(sr) {
+		modes := []string{"compound", "splitand", "swapcmp", "ifnot", "explain"}
+		var mu sync.Mutex
+		var wg2 sync.WaitGroup
+		for _, mode := range modes {
+			wg2.Add(1)
+			go func(mode string) {
+				defer wg2.Done()
+				res := "invariant"
+				tmp, err := os.MkdirTemp("", "yfsyn")
+				if err != nil {
+					return
+				}
+				defer os.RemoveAll(tmp)
+				if out, err := exec.Command(sr, "-repo", repo, "-mode", mode, "-out", tmp).CombinedOutput(); err != nil {
+					res = "synrewrite failed: " + core.Trunc(string(out), 200)
+				} else if got, err := violationKeys(self, repo, verif, r.Property, filepath.Join(tmp, "overlay.json")); err != nil {
+					res = "run on the rewritten program failed: " + err.Error()
+				} else {
+					var diff []string
+					for k := range got {
+						if !base[k] {
+							diff = append(diff, "+"+k)
+						}
+					}
+					for k := range base {
+						if !got[k] {
+							diff = append(diff, "-"+k)
+						}
+					}
+					sort.Strings(diff)
+					if len(diff) > 0 {
+						res = fmt.Sprintf("DEPENDS ON SPELLING: %v", diff)
+						fmt.Printf("SELFTEST-FALSE-ALARM syntactic rewrite %q (behaviour-preserving by construction; findings differ: %v)\n", mode, diff)
+					}
+				}
+				mu.Lock()
+				syn[mode] = res
+				mu.Unlock()
+			}(mode)
+		}
+		wg2.Wait()
+	}
+	r.Extra["selftest_syntactic_rewrites"] = syn
+	nInv := 0
+	for _, v := range syn {
+		if v == "invariant" {
+			nInv++
+		}
+	}
+	alpha = fmt.Sprintf("%s; syntactic rewrites: %d/%d invariant", alpha, nInv, len(syn))
+	fmt.Printf("selftest: %d mutants, %d applied, %d killed; %d behaviour-preserving variants, %d quiet; alpha-renaming: %s\n", nMut, applied, killed, nBenign, quiet, core.Trunc(alpha, 90))
 	r.Extra["selftest_benign"] = nBenign
 	r.Extra["selftest_benign_quiet"] = quiet
 	r.Extra["selftest"] = results
